@@ -216,6 +216,10 @@ def check(ctx: Ctx) -> None:
     from ..idioms import check_accumulators_initialised, check_per_iteration_leaks
     check_accumulators_initialised(ctx, 'C04.i', [MI, 'pyphysim/util/misc.py'], floor=2)
     check_per_iteration_leaks(ctx, 'C04.j', [MI, 'pyphysim/util/misc.py'], floor=1)
+    from ..idioms import check_no_self_normalisation
+    check_no_self_normalisation(ctx, 'C04.k', [MI], floor=30)
+    from ..idioms import check_mean_counts
+    check_mean_counts(ctx, 'C04.l', [MI, 'pyphysim/util/misc.py'], floor=30)
     if deferred is not None:
         raise deferred
     if cannot_tell:
